@@ -12,13 +12,47 @@ Definition classify_tok (s : list N) : numcls :=
   | _ => NBad
   end.
 
+(* What the PARSER sees of the token stream. One corner of the Go lexer depends on how it is driven: when the very
+   first token of the file is a short string that is cut off by a raw newline, the error site calls GetNowTokenLoc()
+   while no token is current yet, which looks ahead (scanning the NEXT token) from inside the scan; because the parser
+   reaches the first token through a look-ahead itself, the outer look-ahead then overwrites the cached token: the
+   token after the unfinished string is lost (its lexical errors have been reported). A run of such strings loses one
+   more token each. The stand-alone NextToken loop (leg c03.lex) does not lose them. *)
+Definition is_unfinished_str (t : ltok) : bool :=
+  match tk (lt t) with
+  | TkString => existsb (fun e => match e with LeUnfinishedStr => true | _ => false end) (lerrs t)
+  | _ => false
+  end.
+
+Fixpoint lost_run (ts : list ltok) (es : list lexerr) (cs : list (Z * cinfo)) : list lexerr * list (Z * cinfo) * list ltok :=
+  match ts with
+  | [] => (es, cs, [])
+  | t :: r =>
+    match tk (lt t) with
+    | TkEOF => (es, cs, ts)                                   (* nothing left to lose: EOF is scanned again *)
+    | _ => if is_unfinished_str t then lost_run r (es ++ lerrs t) (cs ++ lcomments t)
+           else (es ++ lerrs t, cs ++ lcomments t, r)
+    end
+  end.
+
+Definition parser_view (ts : list ltok) : list ltok :=
+  match ts with
+  | t1 :: r =>
+    if is_unfinished_str t1 then
+      let '(es, cs, r') := lost_run r [] [] in
+      mkLtok (lt t1) (lerrs t1 ++ es) (lcomments t1 ++ cs) :: r'
+    else ts
+  | [] => []
+  end.
+
 Section Front.
   Variable gbk_runes : list N -> Z.          (* oracle, see Model/Lexer.v *)
   Variable classify : list N -> numcls.      (* parser_number.go *)
 
   Definition parse_bytes (bs : list N) : Res parse_result :=
     do ts <- lex_all gbk_runes bs ;
-    parse_tokens classify (fuel_of_tokens ts) ts.
+    let ts' := parser_view ts in
+    parse_tokens classify (fuel_of_tokens ts') ts'.
 
   (* "the file gets at least one syntax diagnostic" *)
   Definition flagged (r : parse_result) : bool :=
